@@ -444,9 +444,10 @@ def _pixel_sizes(seed):
 
 def families(tier, seed):
     quick = tier == "quick"
-    boxes = [(8, 8, 8), (9, 9, 9), (8, 10, 12), (9, 8, 11)]
+    # (13, 8, 8): an edge with a prime factor above 11 - the sizes FFT libraries call "slow" and code is tempted to pad
+    boxes = [(8, 8, 8), (9, 9, 9), (8, 10, 12), (9, 8, 11), (13, 8, 8)]
     if not quick:
-        boxes += [(12, 12, 12), (12, 9, 10), (16, 16, 16)]
+        boxes += [(12, 12, 12), (12, 9, 10), (16, 16, 16), (13, 13, 13), (8, 17, 9)]
     S = [seed]
     fams = []
     fams.append(Family(
